@@ -212,6 +212,12 @@ fn scenario(seed: u64, part: &str, salt: u64, hidx: u64, cfg: &Cfg, nthreads: us
     let dispatch = build_dispatch(cfg, sink.clone());
     let barrier = Arc::new(Barrier::new(nthreads));
     let mut handles = vec![];
+    // Thread names grow from scenario to scenario and differ in length between the threads of
+    // one scenario: whatever the formatter keeps per process about the names it has seen (the
+    // padding width) is updated by several threads at the same moment, scenario after scenario.
+    static NAME_PAD: std::sync::atomic::AtomicUsize = std::sync::atomic::AtomicUsize::new(0);
+    let pad = NAME_PAD.fetch_add(nthreads, std::sync::atomic::Ordering::Relaxed).min(240);
+    let procs: Arc<Mutex<Vec<Option<std::path::PathBuf>>>> = Arc::new(Mutex::new(vec![None; nthreads]));
     for t in 0..nthreads {
         let mut rng = Rng::derive(seed ^ salt, hidx, t as u64);
         let named = rng.chance(2, 3);
@@ -221,16 +227,59 @@ fn scenario(seed: u64, part: &str, salt: u64, hidx: u64, cfg: &Cfg, nthreads: us
         let hp = HistParams { nops: p.nops, bomb_pct: p.bomb_pct, max_depth: p.max_depth };
         let mut builder = std::thread::Builder::new();
         if named {
-            builder = builder.name(format!("w{t}"));
+            builder = builder.name(format!("w{t}{}", "-".repeat(pad + t)));
         }
+        let procs = procs.clone();
         let h = builder
             .spawn(move || {
+                if !cfg!(miri) {
+                    procs.lock().unwrap()[t] = std::fs::read_link("/proc/thread-self").ok().map(|p| std::path::Path::new("/proc").join(p));
+                }
                 let _g = tracing::dispatch::set_default(&d);
                 b.wait();
                 run_history(&mut rng, &cfg, (t + 1) as u64, named, &hp)
             })
             .expect("HARNESS: spawn history thread");
         handles.push(h);
+    }
+    // Bounded progress: a history is a few dozen operations, microseconds of work each.  A thread
+    // that has burnt STUCK_CPU_S seconds of its own CPU time (scheduler accounting, so a loaded
+    // machine does not count) without finishing is an emission that never returns; the wall clock
+    // only ever makes the run inconclusive.
+    const STUCK_CPU_S: u64 = 20;
+    let t0 = Instant::now();
+    let mut spins = 0u64;
+    while !cfg!(miri) && handles.iter().any(|h| !h.is_finished()) {
+        std::thread::sleep(std::time::Duration::from_micros(if spins < 2000 { 50 } else { 5000 }));
+        spins += 1;
+        if spins % 100 != 0 {
+            continue;
+        }
+        for t in 0..nthreads {
+            if handles[t].is_finished() {
+                continue;
+            }
+            let path = procs.lock().unwrap()[t].clone();
+            let cpu_ns = path
+                .and_then(|p| std::fs::read_to_string(p.join("schedstat")).ok())
+                .and_then(|s| s.split_whitespace().next().and_then(|x| x.parse::<u64>().ok()));
+            if let Some(ns) = cpu_ns {
+                if ns > STUCK_CPU_S * 1_000_000_000 {
+                    out.violation(
+                        "an emission never returned: a history thread consumed its CPU-time bound without finishing",
+                        json!({"part": part, "history_index": hidx, "config": cfg.describe(), "threads": nthreads, "thread": t + 1,
+                               "thread_cpu_seconds": ns / 1_000_000_000, "ops_per_history": p.nops, "thread_name_padding": pad + t}),
+                    );
+                    out.emit();
+                    std::process::exit(0);
+                }
+            }
+        }
+        if t0.elapsed().as_secs() > 400 * run::slow_factor() {
+            out.inconclusive(format!("{part} scenario {hidx} did not finish in 400 s (watchdog)"));
+            out.emit();
+            std::process::exit(0);
+        }
     }
     let hists: Vec<ThreadHist> = handles.into_iter().map(|h| h.join().expect("HARNESS: history thread died")).collect();
     drop(dispatch);
